@@ -13,6 +13,14 @@ recorded by the executor, never about the spelling of the source:
   D4  with every comparison on the quotient false (NaN) the acceptance is rejected and the radius update taken for hopeless
       steps (quotient -> -inf) is still taken;
   T6  the shape of the acceptance condition is the same in both trust-region drivers.
+
+Roles are found on the terms: the iterate is the carried variable (or component `state.x` of a carried record) whose loop-head value
+a return hands back; an *acceptance* is a replacement of it from which control can reach the head of the main loop again (CFG), a
+replacement followed only by `break` / `return` is the hand-over of a final answer; the exits that can follow a replacement in the
+same iteration are the returns reachable without passing the loop head.  Helpers without loops are followed in any module (the
+load-step entry point is read interprocedurally: `objective.p = p` may sit in a helper of another module), functions with loops are
+the opaque sub-solvers.  A verdict is REFUTED only when every term it is derived from is understood by the executor
+(`C05_sym.understood`); a test / value / call this analysis cannot read gives UNDECIDED.
 """
 from __future__ import annotations
 
@@ -36,11 +44,15 @@ class DriverRun:
         self.ctx = ctx
         self.scope = ctx.need(f"{module}:{func}")
         self.module = module
-        self.I = S.Interp(ctx, inline=lambda s: s.module.name == module and not has_loop(s), max_depth=8)
+        # helpers without loops are followed wherever they live (a helper moved to a shared module is still a helper); functions with
+        # loops are the sub-solvers
+        self.I = S.Interp(ctx, inline=lambda s: not has_loop(s) and not getattr(s.module, "is_test", False), max_depth=8)
         self.I.touch = "optimism.TrustRegionSPG"
         self.result, self.frame = self.I.run(self.scope, {})
         if self.I.notes:
             raise Incomplete(f"{func}: {self.I.notes[0]}")
+        for i, e in enumerate(self.I.events):
+            e["_i"] = i                 # program order of the final pass
         self.events = [e for e in self.I.events if e["frame"] == self.frame.id]
         # main loop: the outermost loop of the driver body
         recs = [r for r in self.I.loops.values() if r.frame == self.frame.id]
@@ -86,11 +98,84 @@ class DriverRun:
                 v = dict(e)
                 v["value"], v["pc"], v["old"] = leaf, tuple(e["pc"]) + tuple(cs), o
                 self.accepts.append(v)
+        # a replacement whose path cannot reach the back edge of the main loop (it is followed by `break` / `return`) does not start
+        # another iteration: it is the hand-over of a final answer (judged by the exit rules), not an acceptance of a step
+        from optilint.cfg import cfg_of
+        cfg = cfg_of(self.scope)
+        head = cfg.node_for(self.loop.node)
+
+        def leaves_loop(e):
+            n = cfg.node_for(e["node"])
+            return n is not None and head is not None and id(head) not in cfg.reachable_from(n)
+        self.finals = [e for e in self.accepts if leaves_loop(e)]
+        self.accepts = [e for e in self.accepts if not leaves_loop(e)]
+
+        def same_iteration_exits(e):
+            """return events that control can reach from the replacement without starting another iteration of the main loop"""
+            n = cfg.node_for(e["node"])
+            if n is None or head is None:
+                return list(self.returns)
+            reach = cfg.reachable_from(n, blocked=[head])
+            return [r for r in self.returns if cfg.node_for(r["node"]) is not None and id(cfg.node_for(r["node"])) in reach]
+        self.same_iteration_exits = same_iteration_exits
         if not self.accepts:
             raise Incomplete(f"{func}: the iterate `{self.iterate}` is never replaced inside the main loop")
 
     def iter_pc(self, ev):
         return ev["pc"][len(self.loop.entry_pc):]
+
+
+def holds(c, want):
+    """Three-valued value of condition c when the atomic conditions in `want` (key -> truth value) are known."""
+    if c is TRUE:
+        return True
+    if c is FALSE:
+        return False
+    if c.key in want:
+        return want[c.key]
+    if c.k == "not":
+        v = holds(c.a[0], want)
+        return None if v is None else not v
+    if c.k == "and":
+        vs = [holds(x, want) for x in c.a[0]]
+        return False if any(v is False for v in vs) else (True if all(v is True for v in vs) else None)
+    if c.k == "or":
+        vs = [holds(x, want) for x in c.a[0]]
+        if any(v is True for v in vs):
+            return True
+        if all(v is False for v in vs):
+            return False
+        # x or not x
+        ks = {x.key for x in c.a[0]}
+        if any(x.k == "not" and x.a[0].key in ks for x in c.a[0]):
+            return True
+        return None
+    if c.k == "bt":
+        return holds(c.a[0], want)
+    if c.k == "ite":
+        vc = holds(c.a[0], want)
+        if vc is True:
+            return holds(S.truth(c.a[1]), want)
+        if vc is False:
+            return holds(S.truth(c.a[2]), want)
+        va, vb = holds(S.truth(c.a[1]), want), holds(S.truth(c.a[2]), want)
+        return va if va == vb else None
+    return None
+
+
+def contradicts(pc1, pc2):
+    """Some condition of pc1 is decided the other way by the conditions pc2."""
+    want = {}
+    for (c0, p0) in pc2:
+        want[c0.key] = p0
+        for (c, p) in flatten(c0, p0):
+            want[c.key] = p
+    for (c0, p0) in pc1:
+        for (c, p) in flatten(c0, p0):
+            v = holds(c, want)
+            if v is not None and v != p:
+                return True
+    return False
 
 
 def _contains(outer, inner):
@@ -119,8 +204,10 @@ def get_run(ctx, module, func) -> DriverRun:
 # ------------------------------------------------------------------ the optimality measure
 
 def pg_vector(v: T, P: T, objective: T, box):
-    """Is v == +-(clamp(P - objective.gradient(P), lo, hi) - P) ?  -> (ok, reason)"""
+    """Is v == +-(clamp(P - objective.gradient(P), lo, hi) - P) ?  -> (True / False / None, reason).  False only when v and P are fully
+    understood terms (no value the executor has no model for): then the difference is a derived fact."""
     last = ""
+    known = S.understood(v, P)
     for arg in (v, S.neg(v)):
         rest = S.add(arg, P)                       # must be the bare projection
         if rest.k != "clamp":
@@ -128,14 +215,15 @@ def pg_vector(v: T, P: T, objective: T, box):
             continue
         w, lo, hi = rest.a
         if box is not None and (lo.key != box[0].key or hi.key != box[1].key):
-            return False, f"the projection in the measure uses the bounds `{show(lo)}`, `{show(hi)}`"
+            comparable = all(b.k == "col" and isinstance(b.a[0], T) and box[0].k == "col" and b.a[0].key == box[0].a[0].key for b in (lo, hi))
+            return (False if comparable and known else None), f"the projection in the measure uses the bounds `{show(lo)}`, `{show(hi)}`"
         g = S.sub(P, w)
         if not (g.k == "call" and g.a[0].k == "attr" and g.a[0].a[1] == "gradient" and len(g.a[1]) == 1 and g.a[1][0].key == P.key and not g.a[2]):
-            return False, f"the projected point is `{S.brief(w, 100, 3)}`, not (returned point) - gradient(returned point)"
+            return (False if known else None), f"the projected point is `{S.brief(w, 100, 3)}`, not (returned point) - gradient(returned point)"
         if objective is not None and g.a[0].a[0].key != objective.key:
-            return False, f"the gradient is taken from `{show(g.a[0].a[0])}`"
+            return (False if known else None), f"the gradient is taken from `{show(g.a[0].a[0])}`"
         return True, ""
-    return False, last
+    return (False if known else None), last
 
 
 def measure_of(m: T, P: T, objective: T, box):
@@ -153,7 +241,7 @@ def measure_of(m: T, P: T, objective: T, box):
                 for cand in [l] + [term(k) for k in S.atoms_of(l)]:
                     if S.is_num(cand) and pg_vector(cand, P, objective, box)[0]:
                         return None, f"`{S.brief(m, 100, 3)}` is a library function of the projected gradient of the returned point that is not modelled", 1
-    return False, f"`{S.brief(m, 120, 3)}` is not a norm of project(y - gradient(y), bounds) - y", 1
+    return (False if S.understood(m, P) else None), f"`{S.brief(m, 120, 3)}` is not a norm of project(y - gradient(y), bounds) - y", 1
 
 
 def plain_gradient_measure(m: T, P: T, objective: T):
@@ -181,6 +269,17 @@ def _tol_bound(lit, pol):
     if c <= 0 or len(m) != 1:
         return None
     return A, m[0][1], term(tols[0])
+
+
+def _mentions_tol(lit):
+    return any(term(a).k == "attr" and str(term(a).a[1]) == "tol" for a in S.atoms_of(lit))
+
+
+def _mirror(lit):
+    """`A < B` read from the other side (same comparison kind): used to recognise `c*tol**k <= A`, the negation of an upper bound"""
+    if lit.k == "cmp" and lit.a[0] in ("lt", "le"):
+        return mk("cmp", lit.a[0], lit.a[2], lit.a[1])
+    return lit
 
 
 def _single_power(A):
@@ -257,7 +356,7 @@ def d1_flag(ctx, R: DriverRun, measure="projected-gradient"):
                             mok, mwhy = plain_gradient_measure(m, P, objective), "not the gradient of the returned point"
                             km = km * (2 if m.k == "dot" else 1)
                         if mok is None:
-                            unmodelled = mwhy
+                            unmodelled = mwhy or f"`{S.brief(m, 100, 3)}` is not understood"
                             continue
                         if not mok:
                             partial = f"tested quantity is `{S.brief(m, 140, 3)}`, not the optimality measure of the returned point `{S.brief(P, 70, 2)}` ({mwhy[:200]})"
@@ -269,10 +368,18 @@ def d1_flag(ctx, R: DriverRun, measure="projected-gradient"):
                         break
                     if not found:
                         ok_all = False
-                        opaque_test = any(pol and lit.k == "truth" and lit.a[0].k == "call" and lit.a[0].a[0].k == "fn" for (lit, pol) in lits)
-                        why = unmodelled or partial or ("the convergence test could not be opened" if opaque_test else
-                                                        "this exit reports success but is not dominated by a successful convergence test")
-                        verdicts.append((None if (unmodelled or (opaque_test and not partial)) else False, why))
+                        # a test this analysis cannot read (a call that was not opened, a value without a model, a comparison with
+                        # the tolerance in a form that is not `measure**k < c*tol**k`) may be the convergence test: undecided
+                        opaque_test = any(pol and lit.k == "truth" and lit.a[0].k == "call" for (lit, pol) in lits)
+                        unread = [lit for (lit, pol) in lits if not S.understood(lit) or
+                                  (_mentions_tol(lit) and _tol_bound(lit, True) is None and _tol_bound(_mirror(lit), True) is None)]
+                        if unread and not unmodelled:
+                            unmodelled = f"the test `{S.brief(unread[0], 100, 3)}` on the way to this exit is not understood"
+                        if not S.understood(P) and not unmodelled:
+                            unmodelled = f"the returned point `{S.brief(P, 100, 3)}` is not understood"
+                        why = unmodelled or ("the convergence test could not be opened" if opaque_test else None) or partial or \
+                            "this exit reports success but is not dominated by a successful convergence test"
+                        verdicts.append((None if (unmodelled or opaque_test) else False, why))
                         break
                 if ok_all:
                     verdicts.append((True, ""))
@@ -308,7 +415,7 @@ def d1_conv(ctx, module, func="is_converged"):
     comparison: a NaN measure must not pass)."""
     rule = "D1/T1-convergence-test"
     conv = ctx.need(f"{module}:{func}")
-    I = S.Interp(ctx, inline=lambda s: s.module.name == module and not has_loop(s))
+    I = S.Interp(ctx, inline=lambda s: not has_loop(s) and not getattr(s.module, "is_test", False))
     res, fr = I.run(conv, {})
     rets = [e for e in I.events if e["kind"] == "return" and e["frame"] == fr.id]
     n_true = 0
@@ -325,8 +432,11 @@ def d1_conv(ctx, module, func="is_converged"):
             good = bool(scen)
             shown = []
             nan_note = ""
+            unread = []
             for lits in scen:
                 ok = False
+                unread += [lit for (lit, pol) in lits if not S.understood(lit) or (pol and lit.k == "truth" and lit.a[0].k == "call") or
+                           (_mentions_tol(lit) and _tol_bound(lit, True) is None and _tol_bound(_mirror(lit), True) is None)]
                 for (lit, pol) in lits:
                     tb = _tol_bound(lit, pol)
                     if tb is None:
@@ -343,10 +453,11 @@ def d1_conv(ctx, module, func="is_converged"):
                     if sp[1] == k:
                         ok = True
                 good = good and ok
-            ctx.decide(rule, good, conv, ev["node"], construct="return True",
+            ctx.decide(rule, True if good else (None if unread else False), conv, ev["node"], construct="return True",
                        detail="True only under " + "; ".join(dict.fromkeys(shown)),
-                       bad_detail="a True answer is not guarded by an upper bound on the optimality measure that is homogeneous with settings.tol: "
-                                  + ("; ".join(dict.fromkeys(shown)) or "no comparison of an input with settings.tol found") + nan_note)
+                       bad_detail=(f"the test `{S.brief(unread[0], 100, 3)}` is not understood" if unread and not good else
+                                   "a True answer is not guarded by an upper bound on the optimality measure that is homogeneous with settings.tol: "
+                                   + ("; ".join(dict.fromkeys(shown)) or "no comparison of an input with settings.tol found") + nan_note))
     if n_true < 1:
         ctx.undecided(rule, conv, None, construct="true-exits", detail="the convergence test never answers True")
 
@@ -403,6 +514,8 @@ def _sign_of(D, lits):
         return None
     a = term(m[0][0])
     s = None
+    if a.k in ("abs", "norm", "sqrt") or (a.k == "dot" and a.a[0].key == a.a[1].key):
+        s = "0+"
     for (lit, pol) in lits:
         if lit.k == "cmp" and lit.a[0] in ("lt", "le"):
             l, r = lit.a[1], lit.a[2]
@@ -437,13 +550,14 @@ def d2_descent(ctx, R: DriverRun):
         st = ev["node"]
         acc = Accept(R, ev)
         if not acc.pc:
-            ctx.refuted(rule, sc, st, construct="accept:unconditional",
-                        detail=f"the iterate is replaced by `{show(ev['value'])[:80]}` without any acceptance test")
+            ctx.decide(rule, False if S.understood(ev["value"]) and S.no_carried_unknown(ev["value"]) else None, sc, st, construct="accept:unconditional",
+                       bad_detail=f"the iterate is replaced by `{show(ev['value'])[:80]}` without any acceptance test")
             continue
         if not acc.ratios:
             ctx.undecided(rule, sc, st, construct="accept:ratio", detail="no reduction-ratio quotient found in the acceptance condition")
             continue
         implied_all, shown = True, []
+        unread_accept = False
         den = {}            # ratio key -> [(sign, lits)]
         nums = []           # (expected numerator sign-corrected, lits)
         for lits in acc.scenarios:
@@ -469,6 +583,8 @@ def d2_descent(ctx, R: DriverRun):
                         bounded.extend(rs)
             if not bounded:
                 implied_all = False
+                if not all(S.understood(lit) for (lit, _) in lits) or any(pol and lit.k == "truth" and lit.a[0].k == "call" for (lit, pol) in lits):
+                    unread_accept = True        # a test on the way that this analysis cannot read may be the ratio test
                 if not any("NO lower bound" in s for s in shown):
                     shown.append("no `ratio >= non-negative threshold` holds on a path to the acceptance")
                 continue
@@ -480,7 +596,7 @@ def d2_descent(ctx, R: DriverRun):
                 nums.append((N, lits))
             elif sg in ("-", "0-"):
                 nums.append((S.neg(N), lits))
-        ctx.decide(rule, implied_all, sc, st, construct="accept=>ratio>=0",
+        ctx.decide(rule, True if implied_all else (None if unread_accept else False), sc, st, construct="accept=>ratio>=0",
                    detail="every way to the acceptance bounds the reduction ratio below by a non-negative threshold",
                    bad_detail="a step can be accepted without the reduction ratio being >= a non-negative threshold: "
                               + "; ".join(x for x in dict.fromkeys(shown) if "not claimed" not in x))
@@ -490,7 +606,8 @@ def d2_descent(ctx, R: DriverRun):
             Rq = lst[0][2]
             sgs = {s for (s, _, _) in lst}
             ok = all(s in ("+", "0+", "-", "0-") for s in sgs)
-            structural = _single_atom(Rq.a[1]) is not None      # +-(one unconstrained real): fully understood, and its sign is open
+            structural = _single_atom(Rq.a[1]) is not None and S.understood(Rq.a[1]) and \
+                all(S.understood(lit) for (_, lits, _) in lst for (lit, _) in lits)      # +-(one unconstrained real): fully understood, and its sign is open
             ctx.decide(rule, True if ok else (False if structural else None), sc, st, construct=f"ratio-denominator:{_ratio_text(Rq)}",
                        detail=f"denominator `{show(Rq.a[1])[:100]}` has a known sign ({', '.join(sorted(str(s) for s in sgs))}) where this quotient is consulted",
                        bad_detail=f"denominator `{show(Rq.a[1])[:120]}` of the reduction ratio has no known sign on the paths where the ratio decides the acceptance; "
@@ -534,7 +651,11 @@ def _ratio_text(Rq):
 
 def _check_numerator(N, old, new, R, res, why):
     """N must be objective.value(old) - objective.value(new)."""
+    known = S.understood(N, old, new)
+
     def fail(k, msg, verdict=False):
+        if not known:
+            verdict = None          # a value on the way has no model in the executor: nothing is derived about it
         if res[k] is True or (res[k] is None and verdict is False):
             res[k] = verdict
             why[k] = msg
@@ -571,13 +692,15 @@ def _check_numerator(N, old, new, R, res, why):
             fail("reference-objective-fresh:entry", f"on entry the reference value `{v}` is `{show(init_v)[:100] if init_v is not None else '?'}`, not objective.value(start point)")
         mm = loop.mismatch.get(v)
         if mm is not None:
+            # the candidate invariant `reference == objective.value(iterate)` was executed through the body and compared on the back edge
             fail("reference-objective-fresh:accept",
                  f"after an iteration the reference value `{v}` is `{show(mm['back'])[:160]}` while objective.value(iterate) is `{show(mm['want'])[:160]}`: "
-                 f"reductions would be measured against a stale value")
+                 f"reductions would be measured against a stale value",
+                 False if S.understood(mm["back"], mm["want"]) else None)
         elif entry_ok:
             back = loop.back.get(v)
-            fail("reference-objective-fresh:accept", f"the reference value `{v}` is not re-established as objective.value(iterate) by the loop body "
-                                                     f"(after an iteration it is `{show(back)[:160] if back is not None else '?'}`)")
+            fail("reference-objective-fresh:accept", f"no invariant was found for the reference value `{v}` "
+                                                     f"(after an iteration it is `{show(back)[:160] if back is not None else '?'}`)", None)
         return
     fail("reference-objective-form", f"the reduction is measured against `{show(reft)[:140]}`, which is not objective.value(current iterate `{show(old)[:60] if old is not None else '?'}`)")
 
@@ -619,6 +742,16 @@ def _eval3(c, cmp_value):
         return va if va == vb else None
     if c.k == "cmp":
         return cmp_value(c)
+    if c.k == "truth":
+        return cmp_value(c)
+    return None
+
+
+def _isnan_of(c):
+    """c is the truth of isnan(arg) -> arg else None"""
+    t = c.a[0] if c.k == "truth" else None
+    if t is not None and t.k == "call" and t.a[0].k == "ext" and t.a[0].a[0].split(".")[-1] == "isnan" and len(t.a[1]) == 1:
+        return t.a[1][0]
     return None
 
 
@@ -626,6 +759,9 @@ def _nan_cmp(ratios):
     keys = {r.key for r in ratios}
 
     def f(c):
+        if c.k == "truth":
+            a = _isnan_of(c)
+            return True if a is not None and a.key in keys else None
         if c.a[0] in ("lt", "le", "eq") and (S.atoms_of(c.a[1]) | S.atoms_of(c.a[2])) & keys:
             return False
         return None
@@ -636,6 +772,9 @@ def _minus_inf_cmp(ratios):
     keys = {r.key for r in ratios}
 
     def f(c):
+        if c.k == "truth":
+            a = _isnan_of(c)
+            return False if a is not None and a.key in keys else None
         if c.a[0] in ("lt", "le"):
             if c.a[2].key in keys and not (S.atoms_of(c.a[1]) & keys):
                 return False       # c <= R
@@ -675,16 +814,27 @@ def _default_of(ctx, module, name):
     return None
 
 
-def _reachable_leaves(v, cmp_value):
-    """cases of the decision tree v that can be selected when comparisons evaluate as cmp_value says (unknown tests: both branches)"""
+def _reachable_leaves(v, cmp_value, related=None, certain=True):
+    """[(case, certain)] of the decision tree v that can be selected when comparisons evaluate as cmp_value says.  A test that is not
+    decided selects both branches; when such a test is *about the sampled quantity* (`related`) in a form this evaluation cannot
+    read, the cases below it are reached `uncertainly` (they may be unreachable)."""
     if v.k != "ite":
-        return [v]
-    t = _eval3(v.a[0], cmp_value)
+        return [(v, certain)]
+    unread = []
+
+    def probe(c):
+        r = cmp_value(c)
+        if r is None and related is not None and (S.atoms_of(c) & related):
+            unread.append(c)            # an atomic test about the sampled quantity that the sampler cannot evaluate
+        return r
+    t = _eval3(v.a[0], probe)
     if t is True:
-        return _reachable_leaves(v.a[1], cmp_value)
+        return _reachable_leaves(v.a[1], cmp_value, related, certain)
     if t is False:
-        return _reachable_leaves(v.a[2], cmp_value)
-    return _reachable_leaves(v.a[1], cmp_value) + _reachable_leaves(v.a[2], cmp_value)
+        return _reachable_leaves(v.a[2], cmp_value, related, certain)
+    if unread:
+        certain = False
+    return _reachable_leaves(v.a[1], cmp_value, related, certain) + _reachable_leaves(v.a[2], cmp_value, related, certain)
 
 
 def _radius_shrinks(ctx, R, acc, rule):
@@ -701,7 +851,7 @@ def _radius_shrinks(ctx, R, acc, rule):
         return
     for (lab, sampler) in (("hopeless step (ratio -> -inf)", _minus_inf_cmp(acc.ratios)), ("NaN ratio", _nan_cmp(acc.ratios))):
         verdict, why = True, ""
-        for leaf in _reachable_leaves(back, sampler):
+        for (leaf, certain) in _reachable_leaves(back, sampler, {r.key for r in acc.ratios}):
             if not S.is_num(leaf):
                 verdict, why = None, f"radius becomes `{S.brief(leaf, 60, 2)}`"
                 continue
@@ -725,6 +875,9 @@ def _radius_shrinks(ctx, R, acc, rule):
             if fac is None:
                 if verdict is True:
                     verdict, why = None, f"radius becomes `{S.brief(leaf, 80, 2)}`, whose size relative to the old radius is not known"
+            elif fac >= 1 and not (certain and S.understood(leaf)):
+                if verdict is True:
+                    verdict, why = None, f"for a {lab} the radius may become `{S.brief(leaf, 80, 2)}` (a test on the ratio on the way is not understood)"
             elif fac >= 1:
                 verdict, why = False, (f"for a {lab} the radius can become `{S.brief(leaf, 80, 2)}` (factor {fac:g} >= 1): it does not shrink"
                                        + (" and the solver can stall on NaN steps" if "NaN" in lab else ""))
@@ -741,20 +894,28 @@ def _reported_ok(log, value, extra_pc):
         if fact[0] != "called" or len(fact) < 3:
             continue
         f = term(fact[1])
-        if f.k != "sym" or fact[2] != value.key:
+        if f.k != "sym":
             continue
+        if fact[2] != value.key:
+            # a conditional argument: the case selected on this path
+            a = term(fact[2])
+            if a.k != "ite":
+                continue
+            for (c, p) in extra_pc:
+                a = S.restrict(a, c, p)
+            if not all(l.key == value.key for (_, l) in leaves(a)):
+                continue
+        # the guard of the fact (`the call certainly happened when ...`) under the conditions of this path, the callback being present
+        # (an absent callback has nothing to be told)
+        want = {S.truth(f).key: True, mk("cmp", "is", *sorted((f, S.NONE), key=lambda t: t.key)).key: False}
+        for (c0, p0) in extra_pc:
+            want[c0.key] = p0
+            for (c, p) in flatten(c0, p0):
+                want[c.key] = p
         g = guard
         for (c, p) in extra_pc:
             g = S.restrict(g, c, p)
-        ok = True
-        for (cs, leaf) in leaves(g):
-            if leaf is TRUE or (leaf.k == "truth" and leaf.a[0].key == f.key) or \
-                    (leaf.k == "not" and _absent(leaf.a[0], True, f)):
-                continue
-            if any(_absent(c, p, f) for (c0, p0) in cs for (c, p) in flatten(c0, p0)):
-                continue          # the callback is absent on this path
-            ok = False
-        if ok:
+        if holds(S.truth(g), want) is True:
             return True
     return False
 
@@ -768,24 +929,46 @@ def _absent(c, p, f):
     return False
 
 
+def _unread_reports(R, point):
+    """Calls whose effect this analysis cannot read and that receive the point (or a function-valued parameter of the driver that is
+    called somewhere): one of them may be the report of the point."""
+    fsyms = {f[1] for e in R.I.events for f in e.get("log", {}) if f[0] == "called" and term(f[1]).k == "sym"}
+    fsyms |= {f[1] for f in R.loop.back_log if f[0] == "called" and term(f[1]).k == "sym"}
+    out = []
+    for e in R.I.events:
+        if e["kind"] != "call" or e.get("inlined"):
+            continue
+        res = e.get("result")
+        if res is None or S.understood(res):
+            continue
+        ats = set()
+        for a in list(e.get("args", [])) + [v for (_, v) in e.get("kws", [])] + [e["callee"]]:
+            ats |= S.atoms_of(a)
+        if (point is not None and point.key in ats) or (ats & fsyms):
+            out.append(e)
+    return out
+
+
 def d3_reported(ctx, R: DriverRun):
     rule = "D3/T2-reported-iterate"
     sc = R.scope
     loop = R.loop
-    for ev in R.accepts:
+    exhausted = (mk("truth", mk("exhausted", loop.label)), False)     # leaving a `for` loop in the iteration of the replacement is a `break`
+    for ev in R.accepts + R.finals:
         ok = True
         for (cs, nv) in leaves(ev["value"]):
             if nv.key == R.head_x.key:
                 continue
             pcx = list(R.iter_pc(ev)) + list(cs)
-            # at the back edge and at every exit that follows the acceptance in the same iteration
-            if not _reported_ok(loop.back_log, nv, pcx):
+            # at the back edge (when the replacement can reach it) and at every exit that can follow the replacement in the same iteration
+            if not any(ev is f for f in R.finals) and not _reported_ok(loop.back_log, nv, pcx):
                 ok = False
-            for r in R.returns:
-                if len(r["pc"]) >= len(ev["pc"]) and all(a[0].key == b[0].key and a[1] == b[1] for a, b in zip(ev["pc"], r["pc"])) \
-                        and r["node"].lineno > ev["node"].lineno and _contains(loop.node, r["node"]):
-                    if not _reported_ok(r["log"], nv, list(cs)):
+            for r in R.same_iteration_exits(ev):
+                if not contradicts(r["pc"], list(ev["pc"]) + list(cs) + [exhausted]):
+                    if not _reported_ok(r["log"], nv, pcx + [exhausted]):
                         ok = False
+        if not ok and (not S.understood(ev["value"]) or any(_unread_reports(R, nv) for (_, nv) in leaves(ev["value"]))):
+            ok = None
         ctx.decide(rule, ok, sc, ev["node"], construct=f"report-after:{_short(ev['node'])}",
                    detail="accepted iterate is handed to the callback before the next iteration or exit",
                    bad_detail="an accepted iterate can reach the next iteration or an exit without being reported to the callback")
@@ -794,7 +977,7 @@ def d3_reported(ctx, R: DriverRun):
         if pt is None:
             continue
         env = r["renv"]
-        cur = env.vars.get(R.iterate)
+        cur = S.var_value(env.vars, R.iterate)
         ok, why = True, ""
         ncase = 0
         for (cs, p) in leaves(pt):
@@ -816,7 +999,7 @@ def d3_reported(ctx, R: DriverRun):
             success = all(l is not FALSE for (_, l) in leaves(fl))
             rep = _reported_ok(r["log"], p, list(cs))
             if not (success and rep):
-                ok = False
+                ok = False if (S.understood(p) and S.understood(fl) and not _unread_reports(R, p)) else None
                 why = f"`{show(p)[:80]}` is returned but it is not the accepted iterate" + ("" if success else " and this is not a success exit") + \
                       ("" if rep else "; it was not reported through the callback")
         ctx.decide(rule, ok, sc, r["node"], construct=f"return {_short(r['node'])}",
@@ -851,6 +1034,9 @@ def accept_table(ctx, R: DriverRun):
         for (lab, rv) in RATIO_SAMPLES:
             for m in (True, False):
                 def cmpv(c, rv=rv, m=m):
+                    if c.k != "cmp":
+                        a = _isnan_of(c)
+                        return (rv is None) if a is not None and a.key in rk else None
                     l, r = c.a[1], c.a[2]
                     if c.a[0] not in ("lt", "le"):
                         return None
@@ -886,17 +1072,35 @@ def accept_table(ctx, R: DriverRun):
 
 # ------------------------------------------------------------------ parameters before the solve
 
+WARM_START_PREDICTORS = ("optimism.WarmStart:warm_start_increment", "optimism.WarmStart:warm_start_increment_jax_safe")
+
+
+def solve_run(ctx, module, func, driver_scope):
+    """The load-step entry point executed interprocedurally: helpers of ANY module that contain no loop are followed (their
+    assignments to attribute cells such as `objective.p` and their returned values are seen through), the nonlinear driver and the
+    warm-start predictors (anchors: the public functions of optimism.WarmStart) stay opaque calls whose arguments and whose
+    attribute-cell state at the call are recorded.  -> (Interp, Frame, predictor scopes)"""
+    cache = ctx.__dict__.setdefault("_c05_solve_runs", {})
+    key = (module, func)
+    if key not in cache:
+        sv = ctx.need(f"{module}:{func}")
+        anchors = [a for a in (ctx.repo.find(q) for q in WARM_START_PREDICTORS) if a is not None]
+        I = S.Interp(ctx, opaque=[driver_scope] + anchors, inline=lambda s: not has_loop(s) and not getattr(s.module, "is_test", False), max_depth=8)
+        res, fr = I.run(sv, {})
+        cache[key] = (I, fr, anchors)
+    return cache[key]
+
+
 def params_before_solve(ctx, rule, module, func, driver_scope, pparam="p"):
     sv = ctx.need(f"{module}:{func}")
     if pparam not in sv.params():
         raise Incomplete(f"{func} has no parameter `{pparam}`")
     obj = mk("sym", sv.params()[0])
     P = mk("sym", pparam)
-    I = S.Interp(ctx, opaque=[driver_scope], inline=lambda s: s.module.name == module and not has_loop(s))
-    res, fr = I.run(sv, {})
+    I, fr, anchors = solve_run(ctx, module, func, driver_scope)
     calls = [e for e in I.events if e["kind"] == "call"]
     solves = [e for e in calls if e.get("callee_scope") is driver_scope]
-    warms = [e for e in calls if e.get("callee_scope") is not None and e["callee_scope"].name == "warm_start_increment"]
+    warms = [e for e in calls if e.get("callee_scope") is not None and any(e["callee_scope"] is a for a in anchors)]
     if not solves:
         raise Incomplete(f"{func}: nonlinear solve call not found")
     if not warms:
@@ -911,6 +1115,12 @@ def params_before_solve(ctx, rule, module, func, driver_scope, pparam="p"):
         ok = all(l.key == P.key for l in ls)
         unassigned = any(l.key == default.key for l in ls)
         other = [l for l in ls if l.key not in (P.key, default.key)]
+        if not ok:
+            # a call on the way whose effect the executor cannot read and that receives the objective may be the assignment
+            unread = [c for c in calls if c is not e and not c.get("inlined") and c.get("result") is not None and not S.understood(c["result"])
+                      and any(obj.key in S.atoms_of(a) for a in list(c.get("args", [])) + [x for (_, x) in c.get("kws", [])])]
+            if unread or not S.understood(*other):
+                ok = None
         ctx.decide(rule, ok, sv, e["node"], construct="params-assigned-before-solve",
                    detail=f"`{show(obj)}.{pparam} = {pparam}` on every path to the solve",
                    bad_detail=(f"a path reaches the nonlinear solve without `{show(obj)}.{pparam} = {pparam}`: the solve (and its success flag) "
@@ -920,15 +1130,19 @@ def params_before_solve(ctx, rule, module, func, driver_scope, pparam="p"):
         v = e["cells"].get(cell, default)
         for (c, pol) in e["pc"]:
             v = S.restrict(v, c, pol)
-        early = any(l.key != default.key for (_, l) in leaves(v))
-        ctx.decide(rule, not early, sv, e["node"], construct="warm-start-sees-old-params",
+        assigned = [l for (_, l) in leaves(v) if l.key != default.key]
+        # REFUTED: the new parameters themselves are in the cell; some other assigned value: not read by this rule
+        early = None if assigned and not any(l.key == P.key for l in assigned) else bool(assigned)
+        ctx.decide(rule, None if early is None else (not early), sv, e["node"], construct="warm-start-sees-old-params",
                    detail="no assignment of the new parameters precedes the warm start",
                    bad_detail=f"`{show(obj)}.{pparam}` is assigned before the warm start, so the predictor sees p_new - p_new = 0")
         b = e.get("bound") or {}
         cs = e["callee_scope"].params()
         a0 = b.get(cs[0]) if cs else None
         a2 = b.get(cs[2]) if len(cs) > 2 else None
-        okp = a0 is not None and a2 is not None and a0.key == obj.key and a2.key == P.key
+        okp = a0 is not None and a2 is not None and S.same(a0, obj) and S.same(a2, P)
+        if not okp and not (a0 is not None and a2 is not None and S.understood(a0, a2)):
+            okp = None
         ctx.decide(rule, okp, sv, e["node"], construct="warm-start-arguments",
                    detail=f"warm_start_increment({show(obj)}, ., {pparam})",
                    bad_detail=f"warm start is called with `{show(a0) if a0 is not None else '?'}` and parameters `{show(a2) if a2 is not None else '?'}`")
